@@ -236,6 +236,12 @@ namespace trompeloeil {
     sequence_matcher const* m)
   noexcept
   {
+    bool pending = false;
+    for (auto const& e : matchers)
+    {
+      if (&e == m) { pending = true; break; }
+    }
+    if (!pending) return; // m was passed already, nothing precedes it
     while (!matchers.empty())
     {
       auto first = &*matchers.begin();
